@@ -37,6 +37,7 @@ from cnfgen.formula.cnfio import guess_output_format
 
 from cnfgen.clitools.cmdline import paginate_or_redirect_stdout
 from cnfgen.clitools.cmdline import setup_SIGINT
+from cnfgen.clitools.cmdline import SeedAction
 from cnfgen.clitools.cmdline import CLIParser, CLIError, CLIHelpFormatter
 
 from cnfgen.clitools.cmdline import get_formula_helpers
@@ -253,7 +254,7 @@ def setup_command_line_parsers(progname, fhelpers):
                         metavar="<seed>",
                         default=None,
                         type=int,
-                        action='store')
+                        action=SeedAction)
     g = parser.add_mutually_exclusive_group()
     g.add_argument('--verbose',
                    '-v',
@@ -420,7 +421,7 @@ def cli(argv=None, mode='output'):
                 "You did not tell which formula you wanted to generate.\n")
 
         # Generate the formula and apply transformations
-        if hasattr(args, 'seed') and args.seed:
+        if hasattr(args, 'seed') and args.seed is not None:
             random.seed(args.seed)
 
         try:
@@ -430,7 +431,7 @@ def cli(argv=None, mode='output'):
         except RuntimeError as e:
             raise InternalBug(e) from e
 
-        if hasattr(args, 'seed') and args.seed:
+        if hasattr(args, 'seed') and args.seed is not None:
             opb.header['random seed'] = args.seed
         opb.header['command line'] = "pbgen " + " ".join(argv[1:])
 
